@@ -372,6 +372,104 @@ pub type r#loop {
 }
 "##.to_string())]));
 
+    c.push(("deep-diamond", vec![("m", r##"
+pub type Root {
+    pub r: u32,
+}
+#[align(4)]
+pub type Mid {
+    #[base]
+    pub root: Root,
+    pub m: u32,
+}
+#[align(4)]
+pub type Left {
+    #[base]
+    pub mid: Mid,
+    pub l: u32,
+}
+#[align(4)]
+pub type Right {
+    #[base]
+    pub mid: Mid,
+    pub r: u32,
+}
+#[align(4)]
+pub type Bottom {
+    #[base]
+    pub left: Left,
+    #[base]
+    pub right: Right,
+}
+pub type Core {
+    pub c: u32,
+}
+pub type Inner {
+    #[base]
+    pub core: Core,
+}
+pub type Wrapped {
+    #[base]
+    pub inner: Inner,
+}
+#[align(4)]
+pub type Leaf {
+    #[base]
+    pub wrapped: Wrapped,
+    #[base]
+    pub inner: Inner,
+}
+#[align(4)]
+pub type Chain3 {
+    #[base]
+    pub wrapped: Wrapped,
+    pub tail: u32,
+}
+"##.to_string())]));
+
+    c.push(("base-placement", vec![("m", r##"
+pub type Base {
+    pub bx: u64,
+}
+pub type BaseV {
+    vftable {
+        pub fn bv(&self);
+    },
+}
+#[align(8)]
+pub type BaseAfterField {
+    pub tag: u64,
+    #[base]
+    pub base: Base,
+    pub tail: u64,
+}
+#[align(8)]
+pub type BasesAtAddresses {
+    #[base]
+    pub base_a: Base,
+    #[base]
+    #[address(0x10)]
+    pub base_b: Base,
+    #[address(0x20)]
+    pub last: u64,
+}
+#[align(8)]
+pub type OwnVftableBaseWithout {
+    vftable {
+        pub fn own(&self);
+    },
+    #[address(8)]
+    #[base]
+    pub base: Base,
+    pub y: u64,
+}
+pub type VftableBaseSecond {
+    pub tag: *const u8,
+    #[base]
+    pub base: BaseV,
+}
+"##.to_string())]));
+
     c.push(("diamond", vec![("m", r##"
 pub type Root {
     pub r: u32,
